@@ -158,8 +158,12 @@ func validateDatatype(k string, v any, typ string) string {
 		if !isString(v) {
 			return fmt.Sprintf("field %s (%v) must be a valid duration like '3m30s' or '100ms'", k, v)
 		}
-		if _, err := time.ParseDuration(v.(string)); err != nil {
+		d, err := time.ParseDuration(v.(string))
+		if err != nil {
 			return fmt.Sprintf("field %s (%v) must be a valid duration like '3m30s' or '100ms'", k, v)
+		}
+		if d < 0 {
+			return fmt.Sprintf("field %s (%v) must not be a negative duration", k, v)
 		}
 	case "memorysize":
 		if !isString(v) {
